@@ -6,6 +6,12 @@ import subprocess
 
 VERIF = os.path.dirname(os.path.dirname(os.path.abspath(__file__)))
 LEVELS = {
+    "C11": ("theorems for every interface / ne / admissible index function: short interfaces unchanged, long ones get ne+1 points at "
+            "strictly increasing positions retaining both ends, idempotence, ends survive, surviving vertices keep id and position, "
+            "cycles become ordered subsequences; the binary64 index int(len/ne*i) is proved admissible on len<=1500, ne<=12 by "
+            "kernel evaluation of PrimFloat; generate_mesh/join_two_vertices model tied to the code by exact correspondence; "
+            "junction/adjacency/midpoint clauses by oracle (tested)", "4/C11",
+            "Coq theorems on a Gallina model (incl. bit-exact float index) + differential correspondence"),
     "C08": ("theorems for every cycle / junction predicate / cell list: np.split loses nothing, every interface runs junction-to-"
             "junction through non-junctions, a cell's interfaces tile a rotation of its cycle, de-duplication keeps exactly one "
             "copy up to reversal, the three copies of the internal predicate agree and equal the stated characterisation; "
